@@ -6,6 +6,60 @@ from harness import core, tlc, metric_loss as ML
 PID = "C13"
 
 
+def explainer_integration(ctx, rng, nruns):
+    """a river metric used as loss inside the explainers behaves like the plain function it stands for"""
+    import math
+    import numpy as np
+    from river import metrics
+    from ixai.explainer import IncrementalSage, IncrementalPFI, BatchSage
+    plain = {
+        "MSE": lambda y, p: (float(y) - p["output"]) ** 2,
+        "MAE": lambda y, p: abs(float(y) - p["output"]),
+        "Accuracy": lambda y, p: -1.0 if y == p["output"] else -0.0,      # bigger is better -> negated
+        "CrossEntropy": lambda y, p: -math.log(max(min(p.get(y, 0.0), 1 - 1e-15), 1e-15)),
+    }
+    n = 0
+    for i in range(nruns):
+        name = list(plain)[i % len(plain)]
+        cls = [IncrementalSage, IncrementalPFI][(i // len(plain)) % 2]
+        seed = rng.randrange(2 ** 31)
+        names = ["a", "b", "c"]
+
+        def model(x, name=name):
+            if not isinstance(x, dict):
+                return [model(xi) for xi in x]
+            s_ = 0.7 * x["a"] - 0.2 * x["b"] + 0.1 * x["c"]
+            if name == "CrossEntropy":
+                p1 = 1 / (1 + math.exp(-s_))
+                return {0: 1 - p1, 1: p1}
+            if name == "Accuracy":
+                return {"output": 1.0 if s_ > 0 else 0.0}
+            return {"output": s_}
+        results = []
+        for loss in (getattr(metrics, name)(), plain[name]):
+            random.seed(seed)
+            np.random.seed(seed % 2 ** 32)
+            data = random.Random(seed + 1)
+            ex = cls(model, loss, names, smoothing_alpha=0.3, dynamic_setting=bool(i % 2), n_inner_samples=2)
+            out = []
+            for t in range(25):
+                x = {k: data.gauss(0, 1) for k in names}
+                y = data.choice([0, 1]) if name in ("Accuracy", "CrossEntropy") else data.gauss(0, 1)
+                out.append(dict(ex.explain_one(x, y)))
+            results.append(out)
+        n += 1
+        ctx.nontrivial(("I", name, cls.__name__, i % 2))
+        for t, (a, b) in enumerate(zip(*results)):
+            if set(a) != set(b) or any(not math.isfinite(float(a[k])) or abs(float(a[k]) - float(b[k])) > 1e-9 * (1 + abs(float(b[k]))) for k in b):
+                ctx.violation("metric.as_loss_in_explainer", "metric=%s explainer=%s" % (name, cls.__name__),
+                              "call %d: importance values with the river metric %s, with the plain loss %s" % (t + 1, a, b),
+                              {"metric": name, "explainer": cls.__name__, "seed": seed})
+                break
+    ctx.evaluations += n * 25
+    ctx.count_clause("metric.as_loss_in_explainer", n)
+    return n
+
+
 def run(tier, seed):
     ctx = core.Ctx(PID, tier, seed)
     quick = tier == "quick"
@@ -51,6 +105,9 @@ def run(tier, seed):
         for (clause, detail) in ML.replay_history(name, h, 3, reuse_buffer=True):
             ctx.violation(clause, "metric=%s long history" % name, detail, {"metric": name, "history": h[:50]})
         total += 1
+    n_int = explainer_integration(ctx, rng, 6 if quick else 40)
+    ctx.add_stage("explainers driven by river metrics (MSE, MAE, Accuracy, CrossEntropy) give the same importance values as with the "
+                  "equivalent plain loss function (same seeds)", "integration", runs=n_int)
     for (clause, detail) in ML.routing():
         ctx.violation(clause, "routing", detail, None)
     ctx.count_clause("metric.routing", 2)
